@@ -84,6 +84,8 @@ impl<F: Field, const D: usize> PreprocessedColumns<F, D> {
     {}
 }
 
+/// the duplicate flag is kept per (table, slot): the prover-side conversion cannot tell the creating row from a later writing row of the SAME table
+pub uninterp spec fn first_writer_of_the_slot_is_a_row_of_another_table(op: NpoTypeId, wid: int) -> bool;
 // ---------------------------------------------------------------- ghost accounting
 pub type Cnt = spec_fn(u32) -> int;
 pub open spec fn inc(c: Cnt, s: u32) -> Cnt { |x: u32| if x == s { c(x) + 1 } else { c(x) } }
@@ -231,9 +233,11 @@ def build():
     g.rewrite('R11', 'executor.preprocess(inputs, outputs, &mut preprocessed)?;', 'npo_preprocess::<F, D>(executor, inputs, outputs, &mut preprocessed)?;')
     g.rewrite('R6', 'executor.num_exposed_outputs().unwrap_or(outputs.len())', '(match executor.num_exposed_outputs() { Some(n_) => n_, None => outputs.len() })')
     g.rewrite('R5', 'for out_limb in outputs.iter().take(n_exposed) { for wid in out_limb {',
-              'for ol_ in 0..(if n_exposed < outputs.len() { n_exposed } else { outputs.len() }) { let out_limb = &outputs[ol_]; for wl_ in 0..out_limb.len() { let wid = &out_limb[wl_];')
+              '''proof { assert(n_exposed >= outputs@.len()); } // @@A:H_every_output_slot_of_a_table_row_is_exposed_on_the_bus
+                    for ol_ in 0..(if n_exposed < outputs.len() { n_exposed } else { outputs.len() }) { let out_limb = &outputs[ol_]; for wl_ in 0..out_limb.len() { let wid = &out_limb[wl_];''')
     g.rewrite('R11', '''let dup = preprocessed .dup_npo_outputs .entry(op_type.clone()) .or_default(); if wid_idx >= dup.len() { dup.resize(wid_idx + 1, false); } dup[wid_idx] = true;''',
-              'preprocessed.mark_dup_npo_output(op_type, wid_idx);')
+              '''proof { assert(first_writer_of_the_slot_is_a_row_of_another_table(*op_type, wid_idx as int)); } // @@A:H_a_slot_a_table_writes_again_was_created_by_another_table
+                                preprocessed.mark_dup_npo_output(op_type, wid_idx);''')
     g.rewrite('R5', 'for &wid in &self.private_input_rows {', 'for pr_ in 0..self.private_input_rows.len() { let wid = self.private_input_rows[pr_];')
 
     g.requires('realistic_sizes', 'self.ops@.len() < 0x8_0000 && forall|k: int| 0 <= k < self.ops@.len() ==> npo_out_elems(#[trigger] self.ops@[k]) < 0x1000')
